@@ -164,16 +164,22 @@ Qed.
 
 Definition str_bytes (s : str) : bool := forallb is_byte s.
 
-Fixpoint value_bytes (v : value) : bool :=
-  match v with
-  | VStr s => str_bytes s
-  | VErr => true
-  | VGrp items =>
-      forallb (forallb (fun kv : str * value => let (k, w) := kv in str_bytes k && value_bytes w)) items
-  end.
+(* a predicate on tags and one on value texts, lifted to nested containers *)
+Section ValueAll.
+  Variables Pt Pv : str -> bool.
+  Fixpoint value_all (v : value) : bool :=
+    match v with
+    | VStr s => Pv s
+    | VErr => true
+    | VGrp items =>
+        forallb (forallb (fun kv : str * value => let (k, w) := kv in Pt k && value_all w)) items
+    end.
+  Definition container_all (c : container) : bool :=
+    forallb (fun kv : str * value => let (k, w) := kv in Pt k && value_all w) c.
+End ValueAll.
 
-Definition container_bytes (c : container) : bool :=
-  forallb (fun kv : str * value => let (k, w) := kv in str_bytes k && value_bytes w) c.
+Definition value_bytes : value -> bool := value_all str_bytes str_bytes.
+Definition container_bytes : container -> bool := container_all str_bytes str_bytes.
 
 (* every piece of text the caller supplies is single-byte text (code points < 256) *)
 Definition inputs_bytes (bs : str) (m : message) (sess : session) (t : str) : bool :=
@@ -239,68 +245,83 @@ Qed.
 
 Definition all_bytes (fs : list str) : Prop := Forall (fun f => str_bytes f = true) fs.
 
-Lemma render_value_bytes v : forall t fs,
-  render_value t v = Ok fs -> str_bytes t = true -> value_bytes v = true -> all_bytes fs.
-Proof.
-  induction v as [s| |items IH] using value_ind2; intros t fs H Ht Hv.
-  - cbn in H. inversion H. subst. constructor; [|constructor]. now apply field_bytes.
-  - discriminate.
-  - cbn [render_value] in H. cbn [value_bytes] in Hv.
-    match type of H with
-    | bind (?F items) _ = _ => set (items_go := F) in *
-    end.
-    assert (Hgo : forall its fs', Forall (Forall (fun kv : str * value => forall t fs,
-                     render_value t (snd kv) = Ok fs -> str_bytes t = true ->
-                     value_bytes (snd kv) = true -> all_bytes fs)) its ->
-                   forallb (forallb (fun kv : str * value => let (k, w) := kv in str_bytes k && value_bytes w)) its = true ->
-                   items_go its = Ok fs' -> all_bytes fs').
-    { clear. induction its as [|it its IHits]; intros fs' HF Hb Hr.
-      - cbn in Hr. inversion Hr. constructor.
-      - inversion HF as [|? ? HFit HFits]. subst. cbn [forallb] in Hb.
-        apply andb_true_iff in Hb. destruct Hb as [Hbit Hbits].
-        unfold items_go in Hr. cbn [bind] in Hr. fold items_go in Hr.
-        match type of Hr with
-        | bind (?F it) _ = _ => set (item_go := F) in *
-        end.
-        assert (Hit : forall it fs'', Forall (fun kv : str * value => forall t fs,
-                     render_value t (snd kv) = Ok fs -> str_bytes t = true ->
-                     value_bytes (snd kv) = true -> all_bytes fs) it ->
-                   forallb (fun kv : str * value => let (k, w) := kv in str_bytes k && value_bytes w) it = true ->
-                   item_go it = Ok fs'' -> all_bytes fs'').
-        { clear. induction it as [|[k w] it IHit]; intros fs'' HF Hb Hr.
-          - cbn in Hr. inversion Hr. constructor.
-          - inversion HF as [|? ? HFk HFit]. subst. cbn [forallb] in Hb.
-            rewrite !andb_true_iff in Hb. destruct Hb as [[Hk Hw] Hbit].
-            unfold item_go in Hr. fold item_go in Hr.
-            destruct (render_value k w) as [a|] eqn:Ea; [|discriminate]. cbn [bind] in Hr.
-            destruct (item_go it) as [b|] eqn:Eb; [|discriminate]. cbn [bind] in Hr.
-            inversion Hr. subst. apply Forall_app. split.
-            + exact (HFk k a Ea Hk Hw).
-            + exact (IHit b HFit Hbit eq_refl). }
-        destruct (item_go it) as [a|] eqn:Ea; [|discriminate]. cbn [bind] in Hr.
-        destruct (items_go its) as [b|] eqn:Eb; [|discriminate]. cbn [bind] in Hr.
-        inversion Hr. subst. apply Forall_app. split.
-        + exact (Hit it a HFit Hbit Ea).
-        + exact (IHits b HFits Hbits eq_refl). }
-    destruct (items_go items) as [fs'|] eqn:Eg; [|discriminate]. cbn [bind] in H.
-    inversion H. subst. constructor.
-    + apply field_bytes; [exact Ht|apply n_to_dec_bytes].
-    + exact (Hgo items fs' IH Hv Eg).
-Qed.
+(* if every tag satisfies Pt and every value text Pv, every rendered field satisfies Pf *)
+Section RenderAll.
+  Variables Pt Pv : str -> bool.
+  Variable Pf : str -> Prop.
+  Hypothesis Hfield : forall t v, Pt t = true -> Pv v = true -> Pf (field t v).
+  Hypothesis Hnum : forall n, Pv (n_to_dec n) = true.
 
-Lemma render_body_bytes c : forall fs,
-  render_body c = Ok fs -> container_bytes c = true -> all_bytes fs.
+  Let kvP := fun kv : str * value => let (k, w) := kv in Pt k && value_all Pt Pv w.
+
+  Lemma render_value_all v : forall t fs,
+    render_value t v = Ok fs -> Pt t = true -> value_all Pt Pv v = true -> Forall Pf fs.
+  Proof.
+    induction v as [s| |items IH] using value_ind2; intros t fs H Ht Hv.
+    - cbn in H. inversion H. subst. constructor; [|constructor]. now apply Hfield.
+    - discriminate.
+    - cbn [render_value] in H. cbn [value_all] in Hv. fold kvP in Hv.
+      match type of H with
+      | bind (?F items) _ = _ => set (items_go := F) in *
+      end.
+      assert (Hgo : forall its fs', Forall (Forall (fun kv : str * value => forall t fs,
+                       render_value t (snd kv) = Ok fs -> Pt t = true ->
+                       value_all Pt Pv (snd kv) = true -> Forall Pf fs)) its ->
+                     forallb (forallb kvP) its = true ->
+                     items_go its = Ok fs' -> Forall Pf fs').
+      { clear - Hfield Hnum. induction its as [|it its IHits]; intros fs' HF Hb Hr.
+        - cbn in Hr. inversion Hr. constructor.
+        - inversion HF as [|? ? HFit HFits]. subst. cbn [forallb] in Hb.
+          apply andb_true_iff in Hb. destruct Hb as [Hbit Hbits].
+          unfold items_go in Hr. cbn [bind] in Hr. fold items_go in Hr.
+          match type of Hr with
+          | bind (?F it) _ = _ => set (item_go := F) in *
+          end.
+          assert (Hit : forall it fs'', Forall (fun kv : str * value => forall t fs,
+                       render_value t (snd kv) = Ok fs -> Pt t = true ->
+                       value_all Pt Pv (snd kv) = true -> Forall Pf fs) it ->
+                     forallb kvP it = true ->
+                     item_go it = Ok fs'' -> Forall Pf fs'').
+          { clear. induction it as [|[k w] it IHit]; intros fs'' HF Hb Hr.
+            - cbn in Hr. inversion Hr. constructor.
+            - inversion HF as [|? ? HFk HFit]. subst. cbn [forallb] in Hb. unfold kvP at 1 in Hb.
+              rewrite !andb_true_iff in Hb. destruct Hb as [[Hk Hw] Hbit].
+              unfold item_go in Hr. fold item_go in Hr.
+              destruct (render_value k w) as [a|] eqn:Ea; [|discriminate]. cbn [bind] in Hr.
+              destruct (item_go it) as [b|] eqn:Eb; [|discriminate]. cbn [bind] in Hr.
+              inversion Hr. subst. apply Forall_app. split.
+              + exact (HFk k a Ea Hk Hw).
+              + exact (IHit b HFit Hbit eq_refl). }
+          destruct (item_go it) as [a|] eqn:Ea; [|discriminate]. cbn [bind] in Hr.
+          destruct (items_go its) as [b|] eqn:Eb; [|discriminate]. cbn [bind] in Hr.
+          inversion Hr. subst. apply Forall_app. split.
+          + exact (Hit it a HFit Hbit Ea).
+          + exact (IHits b HFits Hbits eq_refl). }
+      destruct (items_go items) as [fs'|] eqn:Eg; [|discriminate]. cbn [bind] in H.
+      inversion H. subst. constructor.
+      + apply Hfield; [exact Ht|apply Hnum].
+      + exact (Hgo items fs' IH Hv Eg).
+  Qed.
+
+  Lemma render_body_all c : forall fs,
+    render_body c = Ok fs -> container_all Pt Pv c = true -> Forall Pf fs.
+  Proof.
+    induction c as [|[k w] c IH]; intros fs H Hb.
+    - cbn in H. inversion H. constructor.
+    - cbn [render_body] in H. unfold container_all in Hb. cbn [forallb] in Hb.
+      rewrite !andb_true_iff in Hb. destruct Hb as [[Hk Hw] Hc].
+      destruct (mem_str k skip_tags); [now apply IH|].
+      destruct (render_value k w) as [a|] eqn:Ea; [|discriminate]. cbn [bind] in H.
+      destruct (render_body c) as [b|] eqn:Eb; [|discriminate]. cbn [bind] in H.
+      inversion H. subst. apply Forall_app. split.
+      + exact (render_value_all w k a Ea Hk Hw).
+      + exact (IH b eq_refl Hc).
+  Qed.
+End RenderAll.
+
+Lemma render_body_bytes c fs : render_body c = Ok fs -> container_bytes c = true -> all_bytes fs.
 Proof.
-  induction c as [|[k w] c IH]; intros fs H Hb.
-  - cbn in H. inversion H. constructor.
-  - cbn [render_body] in H. unfold container_bytes in Hb. cbn [forallb] in Hb.
-    rewrite !andb_true_iff in Hb. destruct Hb as [[Hk Hw] Hc].
-    destruct (mem_str k skip_tags); [now apply IH|].
-    destruct (render_value k w) as [a|] eqn:Ea; [|discriminate]. cbn [bind] in H.
-    destruct (render_body c) as [b|] eqn:Eb; [|discriminate]. cbn [bind] in H.
-    inversion H. subst. apply Forall_app. split.
-    + exact (render_value_bytes w k a Ea Hk Hw).
-    + exact (IH b eq_refl Hc).
+  apply (render_body_all str_bytes str_bytes (fun f => str_bytes f = true) field_bytes n_to_dec_bytes).
 Qed.
 
 Lemma seq_of_msg_dec c z : seq_of_msg c = Ok z -> str_bytes (z_to_dec z) = true.
@@ -382,4 +403,89 @@ Lemma wire_well_framed bs m sess t raw frame sess' w :
 Proof.
   intros He Hbs Hsoh Hmt Hw. apply wire_some in Hw. destruct Hw as [-> Hb].
   now apply (encode_well_framed_bytes bs m sess t raw frame sess').
+Qed.
+
+(* ------------------------------------------------------------------ witnesses *)
+
+Definition FIX44 : str := [70; 73; 88; 46; 52; 46; 52].
+Definition ex_sess : session := mkSession [83] [84] 5%Z.                  (* S -> T, next 5 *)
+Definition ex_time : str := [50; 48; 50; 51; 48; 57; 49; 57; 45; 48; 55; 58; 49; 51; 58; 50; 54; 46; 56; 48; 56].
+
+(* AllocationInstruction with NoAllocs -> NoNestedPartyIDs -> NoNestedPartySubIDs, two items *)
+Definition ex_nested : message :=
+  mkMsg [74]
+    [([55; 48], VStr [97; 49]);
+     ([55; 56], VGrp [[([55; 57], VStr [65]); ([56; 48], VStr [49]);
+                       ([53; 51; 57], VGrp [[([53; 50; 52], VStr [80]);
+                                             ([56; 48; 52], VGrp [[([53; 52; 53], VStr [115]); ([56; 48; 53], VStr [49])]])]])];
+                      [([55; 57], VStr [66; 233]); ([56; 48], VStr [50])]])].
+
+Lemma ex_nested_hyps :
+  nonempty FIX44 = true /\ soh_free FIX44 = true /\ starts_printable (msg_type ex_nested) = true
+  /\ inputs_bytes FIX44 ex_nested ex_sess ex_time = true
+  /\ exists frame sess', encode FIX44 ex_nested ex_sess ex_time false = Ok (frame, sess')
+       /\ (length frame = 130)%nat /\ wire frame = Some frame /\ well_framedb frame = true.
+Proof.
+  repeat (split; [vm_compute; reflexivity|]).
+  destruct (encode FIX44 ex_nested ex_sess ex_time false) as [[frame sess']|] eqn:E;
+    [|vm_compute in E; discriminate].
+  exists frame, sess'. split; [reflexivity|].
+  vm_compute in E. inversion E. subst. clear E.
+  split; [vm_compute; reflexivity|]. split; vm_compute; reflexivity.
+Qed.
+
+(* SOH inside a value does not disturb the length-delimited grammar *)
+Definition ex_soh_value : message := mkMsg [68] [([53; 56], VStr [104; 1; 49; 48; 61; 1])].
+Lemma ex_soh_value_ok :
+  exists frame sess', encode FIX44 ex_soh_value ex_sess ex_time false = Ok (frame, sess')
+    /\ well_framedb frame = true.
+Proof.
+  destruct (encode FIX44 ex_soh_value ex_sess ex_time false) as [[frame sess']|] eqn:E;
+    [|vm_compute in E; discriminate].
+  exists frame, sess'. split; [reflexivity|]. vm_compute in E. inversion E. vm_compute. reflexivity.
+Qed.
+
+(* forced hypothesis "MsgType is not empty": without it the encoder emits an ill-formed frame *)
+Definition ex_empty_type : message := mkMsg [] [([53; 56], VStr [104; 105])].
+Lemma empty_msgtype_refuted :
+  exists m frame sess' w,
+    inputs_bytes FIX44 m ex_sess ex_time = true
+    /\ encode FIX44 m ex_sess ex_time false = Ok (frame, sess')
+    /\ wire frame = Some w /\ well_framedb w = false.
+Proof.
+  exists ex_empty_type.
+  destruct (encode FIX44 ex_empty_type ex_sess ex_time false) as [[frame sess']|] eqn:E;
+    [|vm_compute in E; discriminate].
+  exists frame, sess', frame. split; [vm_compute; reflexivity|]. split; [reflexivity|].
+  vm_compute in E. inversion E. subst. split; vm_compute; reflexivity.
+Qed.
+
+(* the repaired defect D9: transmitting the same text as UTF-8 (what send_msg did before) gives a
+   frame whose BodyLength and CheckSum are wrong as soon as one code point is >= 128 *)
+Definition ex_latin : message := mkMsg [68] [([53; 56], VStr [104; 233])].
+Lemma utf8_would_break :
+  exists frame sess' w,
+    encode FIX44 ex_latin ex_sess ex_time false = Ok (frame, sess')
+    /\ wire frame = Some frame /\ well_framedb frame = true
+    /\ utf8 frame = Some w /\ well_framedb w = false.
+Proof.
+  destruct (encode FIX44 ex_latin ex_sess ex_time false) as [[frame sess']|] eqn:E;
+    [|vm_compute in E; discriminate].
+  destruct (utf8 frame) as [w|] eqn:U.
+  - exists frame, sess', w. split; [reflexivity|].
+    vm_compute in E. inversion E. subst. clear E.
+    vm_compute in U. inversion U. subst. clear U.
+    repeat split; vm_compute; reflexivity.
+  - vm_compute in E. inversion E. subst. vm_compute in U. discriminate.
+Qed.
+
+(* a code point above 255 is refused at the transport *)
+Definition ex_wide : message := mkMsg [68] [([53; 56], VStr [104; 8364])].
+Lemma wide_refused :
+  exists frame sess', encode FIX44 ex_wide ex_sess ex_time false = Ok (frame, sess')
+    /\ wire frame = None.
+Proof.
+  destruct (encode FIX44 ex_wide ex_sess ex_time false) as [[frame sess']|] eqn:E;
+    [|vm_compute in E; discriminate].
+  exists frame, sess'. split; [reflexivity|]. vm_compute in E. inversion E. vm_compute. reflexivity.
 Qed.
